@@ -183,3 +183,11 @@ RULES = [
     ("C08.c", "null period rejected for every periodic action entering the queue", rule_c),
     ("C08.d", "time writes hold the queue lock", rule_d),
 ]
+
+
+def rule_inventory(ctx):
+    from . import inventory
+    inventory.check(ctx, ['sched-queue-pull', 'sched-queue-insert'])
+
+
+RULES.append(("C08.f", "state-mutation inventory: no new site that changes the content of the state this property rests on", rule_inventory))
